@@ -12,3 +12,37 @@ mod verif_kani_valid {
         assert!(MAX_TIMESTAMP_FUTURE_SHIFT == 10 * 60 * 1_000_000);
     }
 }
+
+#[cfg(kani)]
+mod verif_kani_record_ord {
+    use super::*;
+
+    fn lex_cmp(a: &[u8; 32], b: &[u8; 32]) -> Ordering {
+        let mut i = 0;
+        while i < 32 {
+            if a[i] < b[i] { return Ordering::Less; }
+            if a[i] > b[i] { return Ordering::Greater; }
+            i += 1;
+        }
+        Ordering::Equal
+    }
+
+    /// `impl Ord for Record`: timestamp first, then the 32 hash bytes lexicographically; `len` is ignored
+    /// (complete: all timestamps, hashes and lengths)
+    #[kani::proof]
+    #[kani::unwind(34)]
+    fn record_cmp_is_ts_then_hash() {
+        let (ha, hb): ([u8; 32], [u8; 32]) = (kani::any(), kani::any());
+        let a = Record { hash: Hash::from_bytes(ha), len: kani::any(), timestamp: kani::any() };
+        let b = Record { hash: Hash::from_bytes(hb), len: kani::any(), timestamp: kani::any() };
+        let expect = if a.timestamp() < b.timestamp() { Ordering::Less }
+            else if a.timestamp() > b.timestamp() { Ordering::Greater }
+            else { lex_cmp(&ha, &hb) };
+        assert!(a.cmp(&b) == expect);
+        assert!(a.partial_cmp(&b) == Some(expect));
+        assert!((a <= b) == (expect != Ordering::Greater));
+        assert!((a >= b) == (expect != Ordering::Less));
+        kani::cover!(expect == Ordering::Less);
+        kani::cover!(expect == Ordering::Equal && a.content_len() != b.content_len());
+    }
+}
